@@ -469,6 +469,11 @@ func migEnsureMutation(ws *migWS) {
 // migGenProto draws one file. siblings are the earlier non-excluded files of the same root.
 func migGenProto(t *rapid.T, ws *migWS, modIdx int, root string, siblings []*migProto, excluded bool) *migProto {
 	k := len(ws.files)
+	// Module-wide lint rules see all roots of a v1beta1 module at once, but one root at a time after the
+	// documented split into one module per root. The only type the generated files share is
+	// google.protobuf.Empty (RPC_REQUEST_RESPONSE_UNIQUE), so only the first root of a multi-root module
+	// may use it.
+	emptyOK := root == ws.Modules[modIdx].rootList()[0]
 	f := &migProto{Idx: k, Root: root, Excluded: excluded}
 	base := fmt.Sprintf("pk%d", k)
 	ver := migPick(t, "pkgver", []string{"v1", "v1", "v2", "v1beta1", "v1alpha2", ""})
@@ -602,7 +607,11 @@ func migGenProto(t *rapid.T, ws *migWS, modIdx int, root string, siblings []*mig
 		for i := 0; i < nr; i++ {
 			rn := fmt.Sprintf("Get%dx%d", k, i)
 			r := migRPC{Name: rn, Comment: migChance(t, "crpc", 30)}
-			switch sh := migRange(t, "rpcshape", 0, 5); sh {
+			sh := migRange(t, "rpcshape", 0, 5)
+			if !emptyOK && (sh == 1 || sh == 2) {
+				sh = 3
+			}
+			switch sh {
 			case 0: // same message for both
 				r.Req, r.Resp = ma.Name, ma.Name
 			case 1:
